@@ -426,6 +426,11 @@ def run(chk):
     cases += [("G", c) for c in gen_gated_systematic()]
     cases += [("", c) for c in gen_abort_unpolled()]
     cases += [("", c) for c in gen_huge()]
+    # the same families through DerivedActorRef's own copies of the timers (flag D)
+    cases += [("D", c) for c in gen_exhaustive()[::2]]
+    cases += [("D", c) for c in gen_abort_unpolled()[::3]]
+    cases += [("GD", c) for c in gen_gated_systematic()[::2]]
+    cases += [("D", c) for c in gen_huge()]
     n_exh = len(cases) - n_corpus
     n_rand = (1500 if quick else 20000) * factor
     for k in range(n_rand):
@@ -435,6 +440,10 @@ def run(chk):
             cases.append(("G", gen_gated_case(chk.rng)))
         elif k % 25 == 2:
             cases.append(("SG", gen_parked_case(chk.rng)))
+        elif k % 5 == 1:
+            cases.append(("D", gen_random_case(chk.rng)))
+        elif k % 25 == 7:
+            cases.append(("GD", gen_gated_case(chk.rng)))
         else:
             cases.append(("", gen_random_case(chk.rng)))
     flags = [f for f, _ in cases]
@@ -477,7 +486,7 @@ def run(chk):
     for i, ops in enumerate(cases):
         chk.coverage["evaluations"] += 1
         mv, iv = canon_obs(model_t[i]), canon_obs(impl_t[i])
-        chk.count("target." + ("starting(parked in pre_start)" if pks[i] else "running") + ("+gated post_stop" if gts[i] else ""))
+        chk.count("target." + ("starting(parked in pre_start)" if pks[i] else "running") + ("+gated post_stop" if gts[i] else "") + ("+DerivedActorRef" if "D" in flags[i] else ""))
         for o in ops:
             chk.count("op." + (o[0] + "." + o[1] if o[0] == "mk" else o[0]))
         if isinstance(iv, tuple) and iv[0] == "mkObs":
